@@ -93,6 +93,19 @@ def run(check):
         x = S.sym('x')
         toks = S.call(f, [x], st)
         code = list(toks[1])
+        # the cell decomposition below treats casts of the value as exact: that is only right if the value is never narrowed
+        RANK = {'float': 0, 'double': 1, 'long double': 2}
+        narrowed = [(to, frm) for to, frm in S.narrowings if RANK[to] < RANK[T]]
+        obp = Ob('C15.print.own-type.%s' % tag, 'static', f.qualname, loc)
+        obp.backend = 'phqv symex (precision audit)'
+        obp.text = 'PhQ::Print<%s> classifies and inserts the value in its own numeric type: the value is never cast to a narrower floating type' % T
+        obp.status = 'discharged' if not narrowed else 'failed'
+        if narrowed:
+            obp.detail = 'the %s value is narrowed to %s before it is classified or printed' % (narrowed[0][1], narrowed[0][0])
+            p_, emin_, emax_ = MANT[narrowed[0][0]]
+            tiny = Fraction(2) ** (emin_ - p_ - 4)       # rounds to zero in the narrower type, normal in T (for long double)
+            obp.cex = {'x': tiny}
+        check.add(obp)
         # PhQ::Print only compares |x| with constants: on every cell of the partition of the real line induced by
         # those constants and the decimal thresholds of the property, code and property are constant.  Evaluating
         # both on one value of the numeric type per cell that contains one (and on every breakpoint that is itself a
@@ -400,6 +413,11 @@ def token_check(check, Q, low, f, canon, n, dimensional, with_unit, name):
                 bad.append('number %d is %s, expected component %d%s' % (i, short(tok[1]), i, ' converted to the unit' if with_unit else ''))
             if len(tok) > 2 and tok[2] != Tn:
                 bad.append('number %d is printed as a %s (its digits are those of that type), the quantity holds %s' % (i, tok[2], Tn))
+    RANK_ = {'float': 0, 'double': 1, 'long double': 2}
+    for to_, frm_ in S.narrowings:
+        if RANK_[to_] < RANK_.get(Tn, 1):
+            bad.append('a %s value is narrowed to %s on its way into the text of a %s quantity' % (frm_, to_, Tn))
+            break
     if dimensional:
         if len(abbrs) != 1:
             bad.append('%d unit abbreviations' % len(abbrs))
@@ -499,7 +517,7 @@ def short(t):
 def adjudicate(check, ob):
     rec = {'property': 'C15', 'obligation': ob.name, 'function': ob.function, 'source': ob.loc, 'verifier_output': ob.detail, 'text': ob.text}
     confirmed = False
-    m = re.match(r'C15\.(cascade|nocarry)\.(\w+?)\.(?:case)?', ob.name)
+    m = re.match(r'C15\.(cascade|nocarry)\.(\w+?)\.(?:case)?', ob.name) or re.match(r'C15\.(print)\.own-type\.(\w+)$', ob.name)
     try:
         if m and isinstance(ob.cex, dict) and 'x' in ob.cex:
             T = m.group(2).replace('_', ' ')
